@@ -29,8 +29,8 @@ def check_site(ctx, rule: str, fn: ast.AST, site: sub.Site, what: str) -> bool:
                       "the other reference; the result depends on declaration order" % (what, short(site.key, 60)))
     pats = sub.resolve_pattern(fn, site.pattern)
     ok_all = True
-    for p in pats:
-        info = sub.pattern_anchoring(p)
+    for (p, pfn, binds) in pats:
+        info = sub.pattern_anchoring(p, pfn, binds)
         ok = bool(info["escaped_keys"]) and info["left"] and info["right"] and not info["raw_interpolation"]
         ok_all = ok_all and ok
         why = []
@@ -64,8 +64,15 @@ def run(ctx) -> None:
     fn = g.func("ComponentSpecification.resolveArguments")
     ctx.analysed(fn)
     sites = [s for s in sub.find_sites(fn) if not sub.is_literal_key(s)]
+    def regex_keys(s):
+        out = []
+        for (p, pfn, binds) in sub.resolve_pattern(fn, s.pattern):
+            out.extend(sub.pattern_anchoring(p, pfn, binds)["escaped_key_nodes"])
+            out.extend(binds.values())
+            out.append(p)
+        return out
     ref_sites = [s for s in sites if key_is_reference_spelling(s.key if s.kind == "plain" else None) or
-                 (s.kind == "regex" and any(key_is_reference_spelling(p) for p in sub.resolve_pattern(fn, s.pattern)))]
+                 (s.kind == "regex" and any(key_is_reference_spelling(k) for k in regex_keys(s)))]
     ctx.floor("C10.R1-anchored-substitution", len(ref_sites), 2, "reference substitutions in resolveArguments")
 
     loops = [n for n in source.walk_own(fn) if isinstance(n, ast.For) and "dataReferences" in source.src(n.iter)]
@@ -78,10 +85,8 @@ def run(ctx) -> None:
         # R2
         keyexpr = s.key if s.kind == "plain" else None
         if keyexpr is None:
-            for p in sub.resolve_pattern(fn, s.pattern):
-                for n in ast.walk(p):
-                    if isinstance(n, ast.Call) and call_name(n) == "re.escape" and n.args:
-                        keyexpr = n.args[0]
+            for k in regex_keys(s):
+                keyexpr = k
         root = keyexpr
         while isinstance(root, ast.Attribute):
             root = root.value
